@@ -239,7 +239,8 @@ type c13Case struct {
 }
 
 func (pc *c13Case) input() map[string]any {
-	return map[string]any{"importer": pc.St.Imp, "args": strings.Join(pc.St.Args, " "), "statement": string(pc.St.File), "statement_hex": Hex(string(pc.St.File)), "mutation": pc.Mut}
+	return map[string]any{"importer": pc.St.Imp, "args": strings.Join(pc.St.Args, " "), "arg_list": pc.St.Args, "flag_list": pc.St.Flags,
+		"statement": string(pc.St.File), "statement_hex": Hex(string(pc.St.File)), "mutation": pc.Mut}
 }
 
 func c13Outcome(code int, out, stderr string) string {
@@ -316,6 +317,22 @@ func c13Known(c *Ctx, stream string, index int, pred string, input any, detail s
 	}
 }
 
+// c13Monitor is c.Monitor with a per (predicate, importer) limit on stored failures: the shared store keeps 15 findings
+// per kind, which one broken importer would otherwise fill alone. Every failure is still counted.
+func c13Monitor(c *Ctx, pc *c13Case, stream string, index int, pred string, input any, ok bool, detail string) bool {
+	if ok {
+		return c.Monitor(stream, index, pred, input, true, "")
+	}
+	key := "failed:" + pred + ":" + pc.St.Imp
+	c.Tag(key)
+	if c.Tags[key] <= 2 {
+		return c.Monitor(stream, index, pred, input, false, detail)
+	}
+	c.Monitored++
+	c.FindingCount["monitor"]++
+	return false
+}
+
 func c13Sig(tags []string, keep ...string) string {
 	var s []string
 	for _, t := range tags {
@@ -355,6 +372,7 @@ func c13Evaluate(c *Ctx, bt *Batch, pc *c13Case) {
 
 	// ---- correspondence: real importer vs Lean row model + journal printer, byte for byte
 	recs, syntaxErr := c13Decode(st.Imp, st.File)
+	fileCopy := st.File
 	recWire, wireOK := c13RecordsWire(recs)
 	flags := c13HexList(st.Flags)
 	if wireOK {
@@ -367,6 +385,9 @@ func c13Evaluate(c *Ctx, bt *Batch, pc *c13Case) {
 				model = "error" // the decoder fails after the rows the model has seen
 			}
 			if !c.Compare(pc.Stream, pc.Idx, "import:"+st.Imp, in, impl, model) {
+				if pc.Stream != "directed" && len(c13Suspects) < 12 {
+					c13Suspects = append(c13Suspects, &c13Case{Stream: pc.Stream, Idx: pc.Idx, St: &c13Stmt{Imp: st.Imp, Flags: st.Flags, Args: st.Args, File: append([]byte{}, fileCopy...), Tags: st.Tags}})
+				}
 				f := &c.Findings[len(c.Findings)-1]
 				if strings.HasPrefix(model, "ok ") {
 					f.Model = clip(UnHex(strings.TrimPrefix(model, "ok ")))
@@ -380,7 +401,7 @@ func c13Evaluate(c *Ctx, bt *Batch, pc *c13Case) {
 
 	if wellFormed {
 		// a well-formed statement must import
-		if !c.Monitor(pc.Stream, pc.Idx, "wellformed_statement_imports", in, pc.Code == 0, fmt.Sprintf("exit %d\n%s", pc.Code, pc.Err)) {
+		if !c13Monitor(c, pc, pc.Stream, pc.Idx, "wellformed_statement_imports", in, pc.Code == 0, fmt.Sprintf("exit %d\n%s", pc.Code, pc.Err)) {
 			return
 		}
 	}
@@ -401,20 +422,20 @@ func c13Evaluate(c *Ctx, bt *Batch, pc *c13Case) {
 			c13Known(c, pc.Stream, pc.Idx, "output_parses", in, "stdout is not a journal: "+rd.Err+"\n"+pc.Out, c13KnownPostfinance)
 		}
 	}
-	if !c.Monitor(pc.Stream, pc.Idx, "output_parses", in, pc.Read.OK, "the importer's output is rejected by knut's parser: "+pc.Read.Err+"\n"+pc.Journal) {
+	if !c13Monitor(c, pc, pc.Stream, pc.Idx, "output_parses", in, pc.Read.OK, "the importer's output is rejected by knut's parser: "+pc.Read.Err+"\n"+pc.Journal) {
 		return
 	}
 	bt.Add(func(a string) {
-		c.Monitor(pc.Stream, pc.Idx, "output_parses_lean_parser", in, a == "ok", "the Lean parser model rejects the importer's output:\n"+pc.Journal)
+		c13Monitor(c, pc, pc.Stream, pc.Idx, "output_parses_lean_parser", in, a == "ok", "the Lean parser model rejects the importer's output:\n"+pc.Journal)
 	}, "c13-parse", Hex(pc.Journal))
 	bt.Add(func(a string) {
-		c.Monitor(pc.Stream, pc.Idx, "directives_wellformed", in, a == "ok", "a directive in the output is not well-formed ("+a+"):\n"+pc.Journal)
+		c13Monitor(c, pc, pc.Stream, pc.Idx, "directives_wellformed", in, a == "ok", "a directive in the output is not well-formed ("+a+"):\n"+pc.Journal)
 	}, "c13-wf", pc.Read.Wire)
 
 	// ---- monitor: once the accounts are opened the output is accepted and re-printed unchanged
 	if pc.PrintInput != "" && (st.Checked || pc.Stream != "stmt") {
 		if wellFormed {
-			if c.Monitor(pc.Stream, pc.Idx, "output_accepted", in, pc.PrintCode == 0, fmt.Sprintf("`knut print` rejects opens + output (exit %d):\n%s\n---\n%s", pc.PrintCode, pc.PrintErr, pc.PrintInput)) {
+			if c13Monitor(c, pc, pc.Stream, pc.Idx, "output_accepted", in, pc.PrintCode == 0, fmt.Sprintf("`knut print` rejects opens + output (exit %d):\n%s\n---\n%s", pc.PrintCode, pc.PrintErr, pc.PrintInput)) {
 				pc.fixpoint(c, in, recs)
 			}
 		} else if pc.PrintCode == 0 {
@@ -428,7 +449,7 @@ func c13Evaluate(c *Ctx, bt *Batch, pc *c13Case) {
 			if a == "unsupported" {
 				return
 			}
-			c.Monitor(pc.Stream, pc.Idx, "faithful_to_spec_reader", in, a == "ok", "the output is not, one for one, the items the specification reads from the statement ("+a+"):\n"+pc.Journal)
+			c13Monitor(c, pc, pc.Stream, pc.Idx, "faithful_to_spec_reader", in, a == "ok", "the output is not, one for one, the items the specification reads from the statement ("+a+"):\n"+pc.Journal)
 		}, "c13-spec", Hex(st.Imp), flags, recWire, pc.Read.Wire)
 	}
 	if !wellFormed {
@@ -441,14 +462,14 @@ func c13Evaluate(c *Ctx, bt *Batch, pc *c13Case) {
 		alt, altKey, readWire := st.Alt, st.AltKey, pc.Read.Wire
 		bt.Add(func(a string) {
 			if a == "ok" || alt == nil {
-				c.Monitor(pc.Stream, pc.Idx, "faithful_to_statement", in, a == "ok", detail)
+				c13Monitor(c, pc, pc.Stream, pc.Idx, "faithful_to_statement", in, a == "ok", detail)
 				return
 			}
 			// is the failure the recorded one (the output is exactly what the finding predicts)?
 			if c.Drv.Ask("c13-faithful", Hex(acct), c13ItemsWire(alt), readWire) == "ok" {
 				c13Known(c, pc.Stream, pc.Idx, "faithful_to_statement", in, detail, altKey)
 			} else {
-				c.Monitor(pc.Stream, pc.Idx, "faithful_to_statement", in, false, detail)
+				c13Monitor(c, pc, pc.Stream, pc.Idx, "faithful_to_statement", in, false, detail)
 			}
 		}, "c13-faithful", Hex(acct), c13ItemsWire(st.Items), pc.Read.Wire)
 	}
@@ -468,7 +489,7 @@ func c13Evaluate(c *Ctx, bt *Batch, pc *c13Case) {
 			c13Known(c, pc.Stream, pc.Idx, "one_transaction_per_row", in, fmt.Sprintf("%d transactions for %d statement rows:\n%s", pc.Read.NTx, st.Rows, pc.Journal), key)
 		}
 	} else {
-		c.Monitor(pc.Stream, pc.Idx, "one_transaction_per_row", in, pc.Read.NTx == bookings, fmt.Sprintf("%d transactions for %d booking rows:\n%s", pc.Read.NTx, bookings, pc.Journal))
+		c13Monitor(c, pc, pc.Stream, pc.Idx, "one_transaction_per_row", in, pc.Read.NTx == bookings, fmt.Sprintf("%d transactions for %d booking rows:\n%s", pc.Read.NTx, bookings, pc.Journal))
 	}
 	if st.Strict != nil {
 		bt.Add(func(a string) {
@@ -488,7 +509,7 @@ func c13Evaluate(c *Ctx, bt *Batch, pc *c13Case) {
 // the same lines.
 func (pc *c13Case) fixpoint(c *Ctx, in map[string]any, recs [][]string) {
 	if pc.PrintOut == pc.PrintInput {
-		c.Monitor(pc.Stream, pc.Idx, "output_reprinted_unchanged", in, true, "")
+		c13Monitor(c, pc, pc.Stream, pc.Idx, "output_reprinted_unchanged", in, true, "")
 		return
 	}
 	detail := "`knut print` changes opens + output:\n" + pc.PrintInput + "\n---\n" + pc.PrintOut
@@ -507,15 +528,117 @@ func (pc *c13Case) fixpoint(c *Ctx, in map[string]any, recs [][]string) {
 		c13Known(c, pc.Stream, pc.Idx, "output_reprinted_unchanged", in, detail, c13KnownQuoteSort)
 		return
 	}
-	c.Monitor(pc.Stream, pc.Idx, "output_reprinted_unchanged", in, false, detail)
+	c13Monitor(c, pc, pc.Stream, pc.Idx, "output_reprinted_unchanged", in, false, detail)
+}
+
+// statements on which the real importer and the model disagree (without a monitor having failed there): the directed
+// search isolates their rows
+var c13Suspects []*c13Case
+
+// c13Directed builds, for every suspect statement, the statements that keep its head (and tail) and ONE of its other
+// lines: if the disagreement hides a property failure, a one-row statement shows it with a small replayable input.
+func c13Directed(suspects []*c13Case) []*c13Case {
+	var res []*c13Case
+	for si, sp := range suspects {
+		if c13Dialects[sp.St.Imp].JSON {
+			continue
+		}
+		lines := strings.SplitAfter(string(sp.St.File), "\n")
+		head, tail := 1, 0
+		switch sp.St.Imp {
+		case "ch.supercard":
+			head = 2
+		case "ch.cumulus":
+			head = 0
+		case "ch.postfinance":
+			tail = 2
+			for i, l := range lines {
+				if strings.Contains(l, "Buchungsdatum") {
+					head = i + 1
+				}
+			}
+		case "us.interactivebrokers":
+			for i, l := range lines {
+				if strings.Contains(l, "Base Currency") || strings.Contains(l, "Period") {
+					head = i + 1
+				}
+			}
+		}
+		if head+tail >= len(lines) {
+			continue
+		}
+		body := lines[head : len(lines)-tail]
+		step := 1
+		if len(body) > 40 {
+			step = len(body) / 40
+		}
+		for k := 0; k < len(body); k += step {
+			file := strings.Join(lines[:head], "") + body[k]
+			if sp.St.Imp == "ch.swissquote" && k+1 < len(body) {
+				file += body[k+1] // forex rows come in pairs
+			}
+			file += strings.Join(lines[len(lines)-tail:], "")
+			res = append(res, &c13Case{Stream: "directed", Idx: si*1000 + k, Mut: fmt.Sprintf("row %d of %s/%d alone", k, sp.Stream, sp.Idx),
+				St: &c13Stmt{Imp: sp.St.Imp, Flags: sp.St.Flags, Args: sp.St.Args, File: []byte(file), Tags: []string{"directed"}, Rows: 1}})
+		}
+	}
+	return res
+}
+
+// c13CaseFromInput rebuilds a case from the input recorded in a finding (replay of derived cases).
+func c13CaseFromInput(in map[string]any, stream string, idx int) *c13Case {
+	imp, _ := in["importer"].(string)
+	hexs, _ := in["statement_hex"].(string)
+	strs := func(v any) []string {
+		var res []string
+		if xs, ok := v.([]any); ok {
+			for _, x := range xs {
+				s, _ := x.(string)
+				res = append(res, s)
+			}
+		}
+		return res
+	}
+	if imp == "" || hexs == "" {
+		return nil
+	}
+	mut, _ := in["mutation"].(string)
+	return &c13Case{Stream: stream, Idx: idx, Mut: mut, St: &c13Stmt{Imp: imp, Flags: strs(in["flag_list"]), Args: strs(in["arg_list"]), File: []byte(UnHex(hexs)), Tags: []string{"replay"}, Rows: 1}}
+}
+
+func c13RunCases(c *Ctx, dir string, cases []*c13Case) {
+	const chunk = 4000
+	for lo := 0; lo < len(cases); lo += chunk {
+		hi := lo + chunk
+		if hi > len(cases) {
+			hi = len(cases)
+		}
+		part := cases[lo:hi]
+		parallelFor(len(part), 16, func(k int) { c13Run(c, dir, part[k]) })
+		bt := c.NewBatch()
+		for _, pc := range part {
+			c13Evaluate(c, bt, pc)
+		}
+		bt.Flush()
+		for _, pc := range part {
+			pc.Out, pc.PrintOut, pc.PrintInput, pc.St.File = "", "", "", nil
+		}
+	}
 }
 
 func runC13(c *Ctx) {
 	dir := filepath.Join(c.WorkDir, "c13")
 	os.MkdirAll(dir, 0o755)
+	c13Suspects = nil
+	if c.Replay && c.ReplayInput != nil && (c.OnlyStr == "directed" || c.OnlyStr == "golden") {
+		if pc := c13CaseFromInput(c.ReplayInput, c.OnlyStr, c.OnlyIndex); pc != nil {
+			c13RunCases(c, dir, []*c13Case{pc})
+		}
+		return
+	}
 	runC13Lib(c)
-	perImp := c.N(220, 3000)
-	perImpMal := c.N(80, 1000)
+	perImp := c.N(700, 8000)
+	perImpMal := c.N(250, 2500)
 	var cases []*c13Case
 	for k, imp := range c13Importers {
 		for i := 0; i < perImp; i++ {
@@ -541,25 +664,15 @@ func runC13(c *Ctx) {
 	if !c.Replay {
 		cases = append(cases, c13Golden(c)...)
 	}
-	const chunk = 4000
-	for lo := 0; lo < len(cases); lo += chunk {
-		hi := lo + chunk
-		if hi > len(cases) {
-			hi = len(cases)
-		}
-		part := cases[lo:hi]
-		parallelFor(len(part), 16, func(k int) { c13Run(c, dir, part[k]) })
-		bt := c.NewBatch()
-		for _, pc := range part {
-			c13Evaluate(c, bt, pc)
-		}
-		bt.Flush()
-		for _, pc := range part {
-			pc.Out, pc.PrintOut, pc.PrintInput, pc.St.File = "", "", "", nil
-		}
+	c13RunCases(c, dir, cases)
+	// directed search around disagreements: every row of a disagreeing statement alone
+	if len(c13Suspects) > 0 && !c.Replay {
+		directed := c13Directed(c13Suspects)
+		c.Notes = append(c.Notes, fmt.Sprintf("directed search: %d one-row statements cut from %d statements on which importer and model disagree", len(directed), len(c13Suspects)))
+		c13RunCases(c, dir, directed)
 	}
 	c.Notes = append(c.Notes,
-		"row models exist for all eleven importers; the text-level validity clause (printed text parses and re-prints unchanged) is decided by the monitors output_parses, output_parses_lean_parser, output_accepted, output_reprinted_unchanged on the REAL output",
+		"row models and Faithful theorems exist for all eleven importers; the text-level validity clause (printed text parses and re-prints unchanged) is decided by the monitors output_parses, output_parses_lean_parser, output_accepted, output_reprinted_unchanged on the REAL output",
 		"known by-design deviations are reported as KNOWN-FINDING lines: wise books a conversion row as two transactions, swissquote books a forex pair (two rows) as one, interactivebrokers rounds to cents, postfinance echoes a debug line on stdout")
 }
 
